@@ -11,6 +11,7 @@ import (
 	"go/types"
 	"os"
 	"path/filepath"
+	"strconv"
 	"strings"
 
 	"golang.org/x/tools/go/ssa"
@@ -103,6 +104,7 @@ func runC06(r *Run, verifDir string) {
 	attrDecoderSetsValue(r, "C06.D7")
 	c06D8(r)
 	c06D9(r)
+	c06D10(r)
 	opIface, _ := root.Types.Scope().Lookup("OperationPayload").Type().Underlying().(*types.Interface)
 	objIface, _ := root.Types.Scope().Lookup("Object").Type().Underlying().(*types.Interface)
 	if opIface == nil || objIface == nil {
@@ -967,4 +969,220 @@ func c06D9(r *Run) {
 	default:
 		r.OK("C06.D9", key, fn.Pos(), "%d lookup(s) keyed by the parameter itself", n)
 	}
+}
+
+// c06D10: a decoder that picks the object's Go type from an element of a decoded list (Import: the Object Type
+// attribute among the attributes) considers every position of the list. The index used to reach the element
+// that dominates the NewObjectForType call must be able to take the value 0 and must not be able to be negative:
+// its lower bound, computed from its origin (loop counter: the initial constant; -1-sentinel search of the
+// standard library: -1) and the comparisons with constants that dominate the indexing, has to be exactly 0.
+func c06D10(r *Run) {
+	p := r.P
+	r.Rule("C06.D10", "a type-selecting scan over a decoded list covers every position (index lower bound is 0)", 1)
+	n := 0
+	for _, fn := range p.OwnFuncs() {
+		if fn.Pkg == nil || !strings.HasSuffix(fn.Pkg.Pkg.Path(), "/payloads") {
+			continue
+		}
+		var sel []ssa.Instruction
+		allInstrs(fn, func(in ssa.Instruction) {
+			if c := callOf(in); c != nil && resolvedCallID(c, 2).is(modPath, "", "NewObjectForType") {
+				sel = append(sel, in)
+			}
+		})
+		if len(sel) == 0 {
+			continue
+		}
+		allInstrs(fn, func(in ssa.Instruction) {
+			ia, ok := in.(*ssa.IndexAddr)
+			if !ok {
+				return
+			}
+			if _, isSl := ia.X.Type().Underlying().(*types.Slice); !isSl {
+				return
+			}
+			if _, _, isFld := fieldAddrOf(unspill(ia.X)); !isFld {
+				if ld, ok := unspill(ia.X).(*ssa.UnOp); !ok || ld.Op != token.MUL {
+					return
+				} else if _, _, isFld := fieldAddrOf(ld.X); !isFld {
+					return
+				}
+			}
+			dom := false
+			for _, s := range sel {
+				if dominatesInstr(ia, s) {
+					dom = true
+				}
+			}
+			if !dom {
+				return
+			}
+			n++
+			key := fnKey(fn) + "/scan-total"
+			lb, how, ok := indexLowerBound(ia.Index, ia.Block())
+			switch {
+			case !ok:
+				r.Unk("C06.D10", key, ia.Pos(), "origin of the index of the type-selecting element not understood (%s)", how)
+			case lb > 0:
+				r.Bad("C06.D10", key, ia.Pos(), "the element that selects the object's type is reached with an index that is never below %d (%s): a list whose selecting element sits at position 0 is treated as if it had none, the request fails to decode", lb, how)
+			case lb < 0:
+				r.Bad("C06.D10", key, ia.Pos(), "the element that selects the object's type is indexed with a search result that may be -1 (%s): a list without the element panics the decoder", how)
+			default:
+				r.OK("C06.D10", key, ia.Pos(), "index lower bound 0 (%s)", how)
+			}
+		})
+	}
+	if n == 0 {
+		r.OK("C06.D10", "payloads/no-indexed-selection", token.NoPos, "no decoder selects the object type through an indexed list element")
+	}
+}
+
+// indexLowerBound computes the least value idx can have in block at: origin (loop counter or -1-sentinel search)
+// refined by the dominating comparisons of idx with constants.
+func indexLowerBound(idx ssa.Value, at *ssa.BasicBlock) (int64, string, bool) {
+	idx = unspill(idx)
+	var lb int64
+	how := ""
+	base := idx
+	add := int64(0)
+	if bo, ok := base.(*ssa.BinOp); ok && bo.Op == token.ADD {
+		if k, ok := constIntVal(bo.Y); ok {
+			base, add = bo.X, k
+		}
+	}
+	switch v := base.(type) {
+	case *ssa.Phi:
+		// loop counter: one constant initial edge, the other edges v+k with k > 0
+		init, haveInit := int64(0), false
+		for _, e := range v.Edges {
+			e = unspill(e)
+			if k, ok := constIntVal(e); ok {
+				if haveInit && k != init {
+					return 0, "counter with two initial values", false
+				}
+				init, haveInit = k, true
+				continue
+			}
+			bo, ok := e.(*ssa.BinOp)
+			if !ok || bo.Op != token.ADD {
+				return 0, "counter edge is not an increment", false
+			}
+			k, okK := constIntVal(bo.Y)
+			if !okK || k <= 0 || (unspill(bo.X) != ssa.Value(v) && unspill(bo.X) != idx) {
+				return 0, "counter edge is not an increment", false
+			}
+		}
+		if !haveInit {
+			return 0, "counter without constant start", false
+		}
+		lb, how = init+add, "loop counter starting at "+strconv.FormatInt(init+add, 10)
+	case *ssa.Call:
+		id := callID(&v.Call)
+		if add != 0 {
+			return 0, "offset search result", false
+		}
+		okFn := false
+		switch {
+		case (id.pkg == "slices") && (id.name == "Index" || id.name == "IndexFunc"):
+			okFn = true
+		case (id.pkg == "strings" || id.pkg == "bytes") && (strings.HasPrefix(id.name, "Index") || strings.HasPrefix(id.name, "LastIndex")):
+			okFn = true
+		}
+		if !okFn {
+			return 0, "result of " + id.String(), false
+		}
+		lb, how = -1, "result of "+id.String()
+	default:
+		return 0, fmt.Sprintf("%T", base), false
+	}
+	for _, dc := range dominatingConds(at) {
+		bo, ok := dc.cond.(*ssa.BinOp)
+		if !ok {
+			continue
+		}
+		x, y, op := unspill(bo.X), unspill(bo.Y), bo.Op
+		if _, isC := constIntVal(x); isC {
+			x, y = y, x
+			switch op {
+			case token.LSS:
+				op = token.GTR
+			case token.LEQ:
+				op = token.GEQ
+			case token.GTR:
+				op = token.LSS
+			case token.GEQ:
+				op = token.LEQ
+			}
+		}
+		if x != idx && x != base {
+			continue
+		}
+		k, ok := constIntVal(y)
+		if !ok {
+			continue
+		}
+		if x == base && base != idx {
+			k += add
+		}
+		if !dc.outcome {
+			switch op {
+			case token.LSS:
+				op = token.GEQ
+			case token.LEQ:
+				op = token.GTR
+			case token.GTR:
+				op = token.LEQ
+			case token.GEQ:
+				op = token.LSS
+			case token.EQL:
+				op = token.NEQ
+			case token.NEQ:
+				op = token.EQL
+			}
+		}
+		switch op {
+		case token.GTR:
+			if k+1 > lb {
+				lb = k + 1
+				how += ", under idx > " + strconv.FormatInt(k, 10)
+			}
+		case token.GEQ:
+			if k > lb {
+				lb = k
+				how += ", under idx >= " + strconv.FormatInt(k, 10)
+			}
+		case token.EQL:
+			if k > lb {
+				lb = k
+				how += ", under idx == " + strconv.FormatInt(k, 10)
+			}
+		}
+	}
+	// a second pass for != lb (order-independent fixpoint of at most a few steps)
+	for changed := true; changed; {
+		changed = false
+		for _, dc := range dominatingConds(at) {
+			bo, ok := dc.cond.(*ssa.BinOp)
+			if !ok {
+				continue
+			}
+			x, y := unspill(bo.X), unspill(bo.Y)
+			if _, isC := constIntVal(x); isC {
+				x, y = y, x
+			}
+			if x != idx {
+				continue
+			}
+			k, ok := constIntVal(y)
+			if !ok {
+				continue
+			}
+			if ((bo.Op == token.NEQ && dc.outcome) || (bo.Op == token.EQL && !dc.outcome)) && k == lb {
+				lb++
+				how += ", under idx != " + strconv.FormatInt(k, 10)
+				changed = true
+			}
+		}
+	}
+	return lb, how, true
 }
